@@ -146,8 +146,37 @@ func genStr(r *Rng, cls string) string {
 	return sb.String()
 }
 
+// alignedStr: a run of k plain ASCII characters, then one character of the class, then a short tail — every
+// alignment of the first special character relative to 2/4/8/16-byte words (bulk-copy / word-at-a-time fast paths)
+func alignedStr(r *Rng, cls string) string {
+	var sb strings.Builder
+	plain := []rune("abcdefghijklmnopqrstuvwxyz0123456789 ")
+	for k := r.Intn(41); k > 0; k-- {
+		sb.WriteRune(pick(r, plain))
+	}
+	switch r.Intn(4) {
+	case 0, 1:
+		sb.WriteRune(pick(r, []rune{'\\', '"'})) // the two characters every JSON writer must escape
+	case 2:
+		sb.WriteRune(pick(r, append(append([]rune{}, charClasses["mandated"]...), charClasses["c0"]...)))
+	default:
+		sb.WriteRune(pick(r, charClasses[cls]))
+	}
+	if r.P(50) {
+		sb.WriteString(genStr(r, cls))
+	}
+	return sb.String()
+}
+
 func genC01Event(r *Rng) (*mocrelay.Event, string) {
 	cls := pick(r, classNames)
+	if r.P(30) {
+		e := &mocrelay.Event{Kind: 1, CreatedAt: 1700000000, Content: alignedStr(r, cls), Tags: []mocrelay.Tag{}}
+		if r.P(50) {
+			e.Tags = append(e.Tags, mocrelay.Tag{"t", alignedStr(r, pick(r, classNames))})
+		}
+		return e, cls
+	}
 	e := &mocrelay.Event{Kind: int64(pick(r, []int{0, 1, 5, 30023, 65535, 20001})), CreatedAt: pick(r, []int64{0, 1, 1700000000, -1, 9223372036854775807, -9223372036854775808}),
 		Content: genStr(r, cls), Tags: []mocrelay.Tag{}}
 	if r.P(10) {
@@ -231,6 +260,68 @@ func tamperings(r *Rng, e *mocrelay.Event) map[string]*mocrelay.Event {
 	c = cloneEv(e)
 	c.Pubkey = flipHex(r, c.Pubkey)
 	m["pubkey-bit"] = c
+	// forgeries that keep the id consistent, so that the signature check itself is reached
+	rehash := func(c *mocrelay.Event) {
+		h := sha256.Sum256([]byte(nip01Canonical(c)))
+		c.ID = hex.EncodeToString(h[:])
+	}
+	c = cloneEv(e)
+	c.Content += "!"
+	rehash(c)
+	m["rehash-content"] = c
+	c = cloneEv(e)
+	c.Pubkey = hex.EncodeToString(schnorr.SerializePubKey(privKey(999).PubKey()))
+	rehash(c)
+	m["rehash-pubkey"] = c
+	c = cloneEv(e)
+	c.Pubkey = flipHex(r, c.Pubkey)
+	rehash(c)
+	m["rehash-pubkey-bit"] = c
+	c = cloneEv(e)
+	c.Pubkey = pick(r, []string{strings.Repeat("f", 64), "fffffffffffffffffffffffffffffffffffffffffffffffffffffffefffffc2f", "fffffffffffffffffffffffffffffffffffffffffffffffffffffffefffffc30",
+		strings.Repeat("0", 64), strings.Repeat("0", 63) + "5", c.Pubkey[:62], c.Pubkey + "00"})
+	rehash(c)
+	m["rehash-pubkey-edge"] = c
+	// signature edge cases on the untouched event
+	const pHex = "fffffffffffffffffffffffffffffffffffffffffffffffffffffffefffffc2f"
+	const nHex = "fffffffffffffffffffffffffffffffebaaedce6af48a03bbfd25e8cd0364141"
+	c = cloneEv(e)
+	c.Sig = pick(r, []string{pHex, strings.Repeat("f", 64), strings.Repeat("0", 64)}) + c.Sig[64:]
+	m["sig-r-edge"] = c
+	c = cloneEv(e)
+	c.Sig = c.Sig[:64] + pick(r, []string{nHex, strings.Repeat("f", 64), strings.Repeat("0", 64)})
+	m["sig-s-edge"] = c
+	c = cloneEv(e)
+	if sb, err := hex.DecodeString(c.Sig[64:]); err == nil { // (r, n - s): the "negated" signature
+		var sv btcec.ModNScalar
+		sv.SetByteSlice(sb)
+		sv.Negate()
+		nb := sv.Bytes()
+		c.Sig = c.Sig[:64] + hex.EncodeToString(nb[:])
+		m["sig-s-negated"] = c
+	}
+	c = cloneEv(e)
+	{ // a valid signature by the same key, over another message
+		other := sha256.Sum256([]byte(c.ID))
+		for k := 0; k < 5; k++ {
+			if hex.EncodeToString(schnorr.SerializePubKey(privKey(k).PubKey())) == c.Pubkey {
+				if sg, err := schnorr.Sign(privKey(k), other[:]); err == nil {
+					c.Sig = hex.EncodeToString(sg.Serialize())
+					m["sig-other-message"] = c
+				}
+			}
+		}
+	}
+	c = cloneEv(e)
+	if idb, err := hex.DecodeString(c.ID); err == nil { // a valid signature of this id, by another key
+		if sg, err := schnorr.Sign(privKey(998), idb); err == nil {
+			c.Sig = hex.EncodeToString(sg.Serialize())
+			m["sig-other-key"] = c
+		}
+	}
+	c = cloneEv(e)
+	c.Sig = pick(r, []string{c.Sig[:126], c.Sig + "00", ""})
+	m["sig-length"] = c
 	return m
 }
 
@@ -253,8 +344,9 @@ func init() {
 				execSer(e, cls)
 				execVerify(e, true, "none")
 				ts := tamperings(r, e)
-				keys := []string{"content", "created_at", "kind", "tags-add", "tags-value", "pubkey", "id-bit", "sig-bit", "pubkey-bit"}
-				for k := 0; k < 3; k++ {
+				keys := []string{"content", "created_at", "kind", "tags-add", "tags-value", "pubkey", "id-bit", "sig-bit", "pubkey-bit",
+					"rehash-content", "rehash-pubkey", "rehash-pubkey-bit", "rehash-pubkey-edge", "sig-r-edge", "sig-s-edge", "sig-s-negated", "sig-other-message", "sig-other-key", "sig-length"}
+				for k := 0; k < 4; k++ {
 					name := pick(r, keys)
 					if t, ok := ts[name]; ok {
 						execVerify(t, false, name)
@@ -275,7 +367,7 @@ func init() {
 					}
 					execVerify(c, false, "malformed")
 				}
-				i += 3
+				i += 4
 			}
 		},
 		replay: func(lines []replayLine) {
